@@ -61,7 +61,7 @@ def run_one(tape: Any, cfg: Dict[str, Any], forbid: FrozenSet[str] = frozenset()
                               [b'Basic ', b'basic ', b'BASIC '][tape.draw(3, 'scheme-case')] + base64.b64encode(b'user:pass')))
             if g.feature('proxy_connection', 0.3):
                 extra.append((b'Proxy-Connection', b'keep-alive'))
-            path = [None, b'', b'/'][tape.weighted([6, 1, 1], 'pathkind')]
+            path = [None, b'', b'/', b'?next=/home/index', b'?u=http://x/a/b&k=v'][tape.weighted([6, 1, 1, 1, 1], 'pathkind')]
             methods = [b'GET', b'POST', b'PUT', b'DELETE', b'PATCH', b'OPTIONS', b'HEAD', b'PROPFIND']
             upgrade = i > 0 and g.feature('upgrade_followup', 0.15)
             if upgrade and i < nreq - 1 and not g.note('request_after_declined_upgrade'):
@@ -145,7 +145,7 @@ def run_one(tape: Any, cfg: Dict[str, Any], forbid: FrozenSet[str] = frozenset()
                                'origin has %r' % (i, meta['method'], meta['target'], meta['framing'], len(meta['body']), orx[-120:]))
                         break
                     r = got[i]
-                    exp_target = meta['path'] or b'/'
+                    exp_target = (b'/' + meta['path']) if meta['path'].startswith(b'?') else (meta['path'] or b'/')
                     if r['method'] != meta['method']:
                         w.fail('wrong_method', pos, '%r != %r' % (r['method'], meta['method']))
                         break
